@@ -20,6 +20,16 @@ def doomed (th : Thread) : Prop :=
 
 def okDone (th : Thread) : Prop := ∃ st, th.result = some st ∧ st ≠ 200
 
+/-- an upper bound on the number of own steps after which a thread that holds `M` has released it -/
+def rank (cfg : Cfg) (th : Thread) : Nat :=
+  match th.kind, th.pc with
+  | .writer _, pc => 3 - pc
+  | .closer, pc => 4 * (cfg.nStreams - th.idx) + (6 - pc)
+  | .multi, pc => if pc = 6 then 10 else if pc ≤ 4 then 10 - pc else if pc = 5 then 1 else 10 - pc
+  | .mediaPlain _, pc => if pc = 6 then 10 else if pc ≤ 4 then 10 - pc else if pc = 5 then 1 else 10 - pc
+  | .mediaBlock _ _ _, pc => if pc = 7 then 11 else if pc ≤ 5 then 11 - pc else if pc = 6 then 1 else 11 - pc
+  | .hint _ _, pc => if pc = 5 then 9 else if pc ≤ 3 then 9 - pc else if pc = 4 then 1 else 8 - pc
+
 structure Eff (cfg : Cfg) (t : Nat) (sh sh' : Shared) (th th' : Thread) (bc : Bool) : Prop where
   len : sh'.sClosed.length = sh.sClosed.length
   np : sh.nextPartID ≤ sh'.nextPartID
@@ -44,6 +54,9 @@ structure Eff (cfg : Cfg) (t : Nat) (sh sh' : Shared) (th th' : Thread) (bc : Bo
   doom : th.kind.isRequester = true → evalFlag sh th.kind th.kind.waitFlag = true → doomed th →
     (doomed th' ∨ okDone th') ∧ th'.everParked = th.everParked
   early : th'.everParked = true → th.everParked = true ∨ th'.wait = .parked
+  kindCl' : th'.kind = .closer → th.kind = .closer
+  heldNoBc : th.held = true → bc = false
+  prog : th.held = true → sh'.owner = none ∨ (th'.held = true ∧ rank cfg th' < rank cfg th)
 
 set_option hygiene false in
 macro "estep" : tactic => `(tactic| (
@@ -53,7 +66,7 @@ macro "estep" : tactic => `(tactic| (
   all_goals (
     try simp only [Option.some.injEq, Prod.mk.injEq, reduceCtorEq] at hs
     try (first | obtain ⟨rfl, rfl, rfl⟩ := hs | obtain ⟨ho, rfl, rfl, rfl⟩ := hs)
-    try (constructor <;> simp_all [closerPending, writerPending, writerFailed, doomed, okDone, dpc, flagAt, evalPred_eq, evalFlag_eq, next, pcHeld, progLen, waitPc, postFlag, postLoop, retOK, Kind.isRequester, Kind.isWriter, Kind.waitFlag, Kind.waitPred, jumpBack, jumpAfter, isStmt, List.findIdx_cons]))))
+    try (constructor <;> simp_all [closerPending, writerPending, writerFailed, doomed, okDone, dpc, flagAt, rank, evalPred_eq, evalFlag_eq, next, pcHeld, progLen, waitPc, postFlag, postLoop, retOK, Kind.isRequester, Kind.isWriter, Kind.waitFlag, Kind.waitPred, jumpBack, jumpAfter, isStmt, List.findIdx_cons]))))
 
 section
 variable (cfg : Cfg) (hsk : cfg.sk = Expected.skeleton) (sh : Shared) (i : Nat) (th : Thread) (c : Bool)
@@ -139,7 +152,7 @@ theorem eff_writer (k : RotKind) (hk : th.kind = .writer k)
     simp [stepThread, hres, hk] at hs
     obtain ⟨⟨he, _⟩, rfl, rfl, rfl⟩ := hs
     simp [hres] at heldSpec
-    constructor <;> simp_all [closerPending, writerPending, writerFailed, doomed, okDone, dpc, Kind.isRequester, Kind.isWriter]
+    constructor <;> simp_all [closerPending, writerPending, writerFailed, doomed, okDone, dpc, rank, Kind.isRequester, Kind.isWriter]
   | none =>
       have : th.pc = 0 ∨ th.pc = 1 ∨ th.pc = 2 ∨ th.pc = 3 ∨ th.pc = 4 ∨ th.pc = 5 := by omega
       cases k <;> rcases this with hpc|hpc|hpc|hpc|hpc|hpc <;> estep
@@ -153,7 +166,7 @@ macro "cestep" : tactic => `(tactic| (
   all_goals (
     try simp only [Option.some.injEq, Prod.mk.injEq, reduceCtorEq] at hs
     try (first | obtain ⟨rfl, rfl, rfl⟩ := hs | obtain ⟨ho, rfl, rfl, rfl⟩ := hs)
-    try (constructor <;> simp_all [closerPending, writerPending, writerFailed, doomed, okDone, dpc, flagAt, evalPred_eq, evalFlag_eq, next, pcHeld, progLen, waitPc, postFlag, postLoop, retOK, Kind.isRequester, Kind.isWriter, Kind.waitFlag, Kind.waitPred, jumpBack, jumpAfter, isStmt, List.findIdx_cons]))))
+    try (constructor <;> simp_all [closerPending, writerPending, writerFailed, doomed, okDone, dpc, flagAt, rank, evalPred_eq, evalFlag_eq, next, pcHeld, progLen, waitPc, postFlag, postLoop, retOK, Kind.isRequester, Kind.isWriter, Kind.waitFlag, Kind.waitPred, jumpBack, jumpAfter, isStmt, List.findIdx_cons]))))
 
 theorem eff_closer (hk : th.kind = .closer) (hlen : sh.sClosed.length = cfg.nStreams)
     (h : TI cfg sh i th) (hs : stepThread cfg i sh th c = some (sh', th', bc)) : Eff cfg i sh sh' th th' bc := by
@@ -176,6 +189,7 @@ theorem eff_closer (hk : th.kind = .closer) (hlen : sh.sClosed.length = cfg.nStr
         exact getD_set_true _ _ _ h1
       · cestep
       · cestep
+        omega
       · cestep
       · cestep
       · cestep
